@@ -15,6 +15,7 @@ import (
 	"github.com/dadrus/heimdall/verif/props/c11"
 	"github.com/dadrus/heimdall/verif/props/c12"
 	"github.com/dadrus/heimdall/verif/props/c13"
+	"github.com/dadrus/heimdall/verif/props/c14"
 	"github.com/dadrus/heimdall/verif/props/c15"
 	"github.com/dadrus/heimdall/verif/props/c16"
 	"github.com/dadrus/heimdall/verif/props/c18"
@@ -39,6 +40,7 @@ func main() {
 		c11.Check(),
 		c12.Check(),
 		c13.Check(),
+		c14.Check(),
 		c15.Check(),
 		c16.Check(),
 		c18.Check(),
